@@ -173,6 +173,8 @@ func (ev *evaluator) eval1(t *Term) *big.Int {
 		return b2i(a(0).Cmp(a(1)) <= 0)
 	case OBv2Int:
 		return a(0)
+	case OBv2IntS:
+		return toSigned(a(0), aw)
 	case OUF:
 		fail("eval: uninterpreted function %s", t.name)
 	}
